@@ -211,7 +211,47 @@ def check_c10(tier, seed, replay=None):
             found = True
             if len(run.violations) < 5:
                 run.violation({"what": bad, "input_text": b.decode("latin1")[:400], "appended": APPEND, "impl": g[:400], "model": m[:400], "op": op[:2000]})
-    run.count("evaluations", len(ops) + len(ops2))
+    # the same statement on LARGE inputs (a size cap, a fixed buffer, a 16/32-bit counter would show only here): x = one definition followed by padding of a
+    # given kind up to just above a power-of-two size; x must be accepted, and x + one more definition must give an error or a File that contains it.
+    # Implementation only - the extracted model is quadratic in the input size and is not run on these (its answer on them is the theorem's: C10_partial).
+    n_big = 0
+    for exp in ([16, 20, 21, 22, 24] if tier != "thorough" else [16, 18, 20, 21, 22, 23, 24, 25, 26]):
+        for kind in ("blank", "comment", "defs", "spaces", "block"):
+            size = (1 << exp) + 100
+            if kind == "defs" and exp > 22:
+                continue
+            if kind == "blank":
+                x = b"struct A { int32 a; }\n" + b"\n" * size
+            elif kind == "spaces":
+                x = b"struct A { int32 a; }\n" + b" " * size + b"\n"
+            elif kind == "comment":
+                line = b"// " + b"x" * 60 + b"\n"
+                x = b"struct A { int32 a; }\n" + line * (size // len(line) + 1)
+            elif kind == "block":
+                x = b"struct A { int32 a; }\n/* " + b"y" * size + b" */\n"
+            else:
+                parts, n, i = [], 0, 0
+                while n < size:
+                    s = b"struct S%d { int32 a; string b; }\n" % i
+                    parts.append(s); n += len(s); i += 1
+                x = b"".join(parts)
+            g1, g2 = frontrun.run_go(["READ -1 %s" % hexs(x), "READ -1 %s" % hexs(x + APPEND.encode())])
+            n_big += 2
+            run.nontrivial((kind, exp))
+            bad = None
+            if cls(g1) not in ("OK", "ERR") or cls(g2) not in ("OK", "ERR"):
+                bad = "ReadFile does not return normally on a %d-byte input: %s / %s" % (len(x), g1[:80], g2[:80])
+            elif cls(g1) != "OK":
+                bad = "ReadFile rejects a valid %d-byte schema (one definition followed by %s padding): %s" % (len(x), kind, g1[:120])
+            elif cls(g2) == "OK" and APPEND_MARK not in g2:
+                bad = ("ReadFile accepts a %d-byte input x and accepts x + a struct definition, but the struct is not in the File: input beyond some size is silently dropped" % len(x))
+            if bad:
+                found = True
+                if len(run.violations) < 5:
+                    run.violation({"what": bad, "input": "one struct definition followed by %d bytes of `%s` padding (kinds: blank lines / spaces / line comments / one block comment / more definitions)" % (size, kind),
+                                   "size": len(x), "appended": APPEND, "impl_on_x": g1[:200], "impl_on_x_plus_def": g2[:200]})
+    run.notes["large_input_append_checks"] = n_big
+    run.count("evaluations", len(ops) + len(ops2) + n_big)
     run.notes["outcomes_by_source"] = {"%s/%s" % k: v for k, v in sorted(tally.items())}
     run.notes["append_checks"] = len(ops2)
     for (b, k, src), g in list(zip(inputs, gl))[:: max(1, len(inputs) // 5)][:5]:
